@@ -60,6 +60,9 @@ def run(ctx):
            'InscriptionCreated↔Origin::New entry insert; InscriptionTransferred↔Origin::Old arm; RuneMinted↔mint()=Some credit; RuneEtched↔create_rune_entry insert; '
            'RuneTransferred↔each encoded output balance; RuneBurned↔each self.burned credit')
   ctx.rule('R37.2', 'the result of every blocking_send(Event) is tested (a closed channel aborts indexing instead of losing events)')
+  ctx.rule('R37.3', 'mint counts: RuneUpdater::mint returns Some exactly on the path that stores mints + 1, and in index_runes the RuneMinted send is controlled by nothing but that result being Some '
+           '(and the sender being attached): no further condition (e.g. on the amount) may drop the event of a counted mint')
+  ctx.rule('R37.4', 'charms at creation: once InscriptionCreated has been sent for a new inscription, update_inscription_location does not write SEQUENCE_NUMBER_TO_INSCRIPTION_ENTRY again on that path')
 
   all_sends = []
   for b in F.bodies.values():
@@ -101,6 +104,8 @@ def run(ctx):
       ins = new_ins[0]
       ctx.ob('R37.1', ub.n, 'entry insert ⇒ InscriptionCreated (modulo event_sender)', paired(ub, ins.bb, sc.bb, allowed_guard=sender_guard), 'an inscription can be created without an event', where(ub, sc.line))
       ctx.ob('R37.1', ub.n, 'InscriptionCreated ⇒ entry insert', always_with(ub, sc.bb, ins.bb), 'an event can be emitted for an inscription that is not stored', where(ub, sc.line))
+      later = [c for c in ent if c is not ins and (ub.strictly_reaches(sc.bb, c.bb) or ub.strictly_reaches(ins.bb, c.bb))]
+      ctx.ob('R37.4', ub.n, 'no second entry write after the creation insert / event', not later, f'the stored entry is rewritten at line(s) {[c.line for c in later]} after the event carried the earlier charms', where(ub, sc.line))
       eo = [o for o in origins(ub, ins.args[2])]
       agg = None
       for c2 in ub.slice_of([ins.args[2]]).calls:
@@ -150,6 +155,20 @@ def run(ctx):
       if len(credit) == 1:
         ctx.ob('R37.1', ir.n, 'mint credit ⇒ RuneMinted (modulo event_sender)', always_with(ir, credit[0].bb, sc.bb, allowed_guard=sender_guard), 'a mint can be credited without an event', where(ir, sc.line))
         ctx.ob('R37.1', ir.n, 'RuneMinted ⇒ mint credit', ir.dominates(credit[0].bb, sc.bb) or always_with(ir, sc.bb, credit[0].bb), '', where(ir, sc.line))
+      from ..guards import all_guards, expand
+      from ..intervals import fmt_desc
+      extra = [(fmt_desc(g.atom)[:120], g.pol) for g in expand(ir, all_guards(ir, sc.bb)) if not fmt_desc(g.atom).startswith('discr(')]
+      ctx.ob('R37.3', ir.n, 'RuneMinted is controlled only by Option/Result tests (mint() = Some, sender attached)', not extra, f'the event of a counted mint is dropped depending on {extra}', where(ir, sc.line))
+      mb = F.body(MINT)
+      if ctx.anchor('R37.3', 'RuneUpdater::mint body', mb is not None, MINT):
+        ctx.analysed(mb)
+        wins = [c for c, k, t in T.writes() if c.body is mb and k == 'insert']
+        somes = [bi for bi in mb.reachable_from(0) for st_ in mb.blocks[bi]['s'] if st_.get('rv', {}).get('k') == 'agg' and st_['rv'].get('variant') == 'Some']
+        ctx.ob('R37.3', mb.n, 'one entry write (mints + 1) and one Some(..) return', len(wins) == 1 and len(somes) == 1, f'{len(wins)} writes / {len(somes)} Some returns', where(mb, mb.line))
+        if len(wins) == 1 and len(somes) == 1:
+          ctx.ob('R37.3', mb.n, 'Some(..) is returned only after the write, and the write is followed by Some(..) on every non-error path', mb.dominates(wins[0].bb, somes[0]) and always_with(mb, wins[0].bb, somes[0]), '', where(mb, wins[0].line))
+          inc = [st_ for blk in mb.blocks for st_ in blk['s'] if st_.get('rv', {}).get('k') == 'bin' and st_['rv']['op'].startswith('Add') and any(isinstance(e, dict) and e.get('n') == 'mints' for e in (((st_['rv']['a'].get('c') or st_['rv']['a'].get('m') or {}).get('p')) or []))]
+          ctx.ob('R37.3', mb.n, 'the stored entry has mints + 1', len(inc) == 1 and mb.const_of(inc[0]['rv']['b']) == 1, f'{len(inc)} increments', where(mb, wins[0].line))
       ao = ir.slice_of([f['amount']])
       ctx.ob('R37.1', ir.n, 'RuneMinted.amount <- the Lot returned by mint()', mc[0] in ao.calls and not ao.binops - {'Eq', 'Ne'}, ao.describe(), where(ir, sc.line))
       io = ir.slice_of([f['rune_id']], through_calls=True)
@@ -241,7 +260,9 @@ def _vec_push_sibling(body, ev_op, entry_op):
 
 
 # sensitivity pack (thorough tier)
-MUTANTS = [{'name': 'burn event dropped', 'file': 'src/index/updater/rune_updater.rs', 'old': '      if let Some(sender) = self.event_sender {\n        sender.blocking_send(Event::RuneBurned {\n          block_height: self.height,\n          txid,\n          rune_id: id,\n          amount: amount.n(),\n        })?;\n      }\n', 'new': '', 'expect': ('R37.1', '', 'RuneBurned')},
+MUTANTS = [{'name': 'seeded-C37-a', 'patch': 'C37-a/patch.diff', 'expect': ('R37.4', 'update_inscription_location', '')},
+           {'name': 'seeded-C37-b', 'patch': 'C37-b/patch.diff', 'expect': ('R37.3', 'index_runes', 'RuneMinted is controlled')},
+           {'name': 'burn event dropped', 'file': 'src/index/updater/rune_updater.rs', 'old': '      if let Some(sender) = self.event_sender {\n        sender.blocking_send(Event::RuneBurned {\n          block_height: self.height,\n          txid,\n          rune_id: id,\n          amount: amount.n(),\n        })?;\n      }\n', 'new': '', 'expect': ('R37.1', '', 'RuneBurned')},
            {'name': 'mint event send failure ignored', 'file': 'src/index/updater/rune_updater.rs', 'old': '            amount: amount.n(),\n          })?;\n        }\n      }\n', 'new': '            amount: amount.n(),\n          }).ok();\n        }\n      }\n', 'expect': ('R37.2', '', 'RuneMinted')},
            {'name': 'etched event before the entry is stored and only for non-reserved', 'file': 'src/index/updater/rune_updater.rs', 'old': '    if let Some(sender) = self.event_sender {\n      sender.blocking_send(Event::RuneEtched {', 'new': '    if let Some(sender) = self.event_sender.filter(|_| id.block % 2 == 0) {\n      sender.blocking_send(Event::RuneEtched {', 'expect': ('R37.1', '', 'RuneEtched')}]
 
